@@ -79,12 +79,13 @@ func main() {
 	}
 	nfiles, nsites := 0, 0
 	for _, p := range loaded {
+		atomics := atomicTargets(p)
 		for i, f := range p.Syntax {
 			name := p.CompiledGoFiles[i]
 			if strings.HasSuffix(name, "_test.go") {
 				continue
 			}
-			in := &instr{fset: fset, info: p.TypesInfo, file: f, fname: filepath.Base(name), pkg: p.Types}
+			in := &instr{fset: fset, info: p.TypesInfo, file: f, fname: filepath.Base(name), pkg: p.Types, atomics: atomics}
 			rel, _ := filepath.Rel(*dir, filepath.Dir(name))
 			in.seams, in.argSeams = seams[rel], argSeams[rel]
 			in.preempt = preempt[rel]
@@ -127,7 +128,62 @@ type instr struct {
 	keep     map[string]string // local package name -> member to reference so the import stays used
 	seams    map[string]bool   // Func or Type.Method -> give it a replaceable prologue
 	argSeams map[string]bool
-	preempt  bool // scheduling point at the end of every loop iteration
+	preempt  bool                  // scheduling point at the end of every loop iteration
+	atomics  map[types.Object]bool // variables and fields of this package that are passed to sync/atomic somewhere
+}
+
+// atomicTargets collects the variables and struct fields whose address is handed to a sync/atomic function
+// anywhere in the package. A plain `x++` / `x += n` on such a variable is a read-modify-write in three steps that
+// other goroutines can cut into; it is rewritten with a scheduling point between the read and the write.
+func atomicTargets(p *packages.Package) map[types.Object]bool {
+	out := map[types.Object]bool{}
+	for _, f := range p.Syntax {
+		ast.Inspect(f, func(n ast.Node) bool {
+			call, ok := n.(*ast.CallExpr)
+			if !ok || len(call.Args) == 0 {
+				return true
+			}
+			sel, ok := call.Fun.(*ast.SelectorExpr)
+			if !ok {
+				return true
+			}
+			pk, ok := sel.X.(*ast.Ident)
+			if !ok {
+				return true
+			}
+			pn, ok := p.TypesInfo.Uses[pk].(*types.PkgName)
+			if !ok || pn.Imported().Path() != "sync/atomic" {
+				return true
+			}
+			u, ok := call.Args[0].(*ast.UnaryExpr)
+			if !ok || u.Op != token.AND {
+				return true
+			}
+			switch x := u.X.(type) {
+			case *ast.SelectorExpr:
+				if o := p.TypesInfo.ObjectOf(x.Sel); o != nil {
+					out[o] = true
+				}
+			case *ast.Ident:
+				if o := p.TypesInfo.ObjectOf(x); o != nil {
+					out[o] = true
+				}
+			}
+			return true
+		})
+	}
+	return out
+}
+
+// rmwTarget reports whether e names a variable or field that is accessed atomically elsewhere.
+func (in *instr) rmwTarget(e ast.Expr) bool {
+	switch x := e.(type) {
+	case *ast.SelectorExpr:
+		return in.atomics[in.info.ObjectOf(x.Sel)]
+	case *ast.Ident:
+		return in.atomics[in.info.ObjectOf(x)]
+	}
+	return false
 }
 
 // loopYield appends a scheduling point to a loop body (packages listed with -preempt).
@@ -569,7 +625,37 @@ func (in *instr) stmt(s ast.Stmt, label *ast.Ident) ast.Stmt {
 		return &ast.BlockStmt{List: []ast.Stmt{in.zstmt("Yield", st), s, in.zstmt("Woke", st)}}
 	case *ast.GoStmt:
 		return in.goStmt(s)
+	case *ast.IncDecStmt:
+		if in.rmwTarget(s.X) {
+			n := in.next()
+			tmp := id("_zv" + n)
+			op := token.ADD
+			if s.Tok == token.DEC {
+				op = token.SUB
+			}
+			return &ast.BlockStmt{List: []ast.Stmt{
+				define([]ast.Expr{tmp}, s.X),
+				in.zstmt("Yield", in.site(s)),
+				assign([]ast.Expr{s.X}, &ast.BinaryExpr{X: tmp, Op: op, Y: intLit(1)}),
+			}}
+		}
+		in.fix(s)
+		return s
 	default:
+		if as, ok := s.(*ast.AssignStmt); ok && len(as.Lhs) == 1 && len(as.Rhs) == 1 && (as.Tok == token.ADD_ASSIGN || as.Tok == token.SUB_ASSIGN) && in.rmwTarget(as.Lhs[0]) {
+			in.fix(as)
+			n := in.next()
+			tmp := id("_zv" + n)
+			op := token.ADD
+			if as.Tok == token.SUB_ASSIGN {
+				op = token.SUB
+			}
+			return &ast.BlockStmt{List: []ast.Stmt{
+				define([]ast.Expr{tmp}, as.Lhs[0]),
+				in.zstmt("Yield", in.site(s)),
+				assign([]ast.Expr{as.Lhs[0]}, &ast.BinaryExpr{X: tmp, Op: op, Y: &ast.ParenExpr{X: as.Rhs[0]}}),
+			}}
+		}
 		in.fix(s)
 		return s
 	}
